@@ -5,6 +5,8 @@
 //! summary. No verdict is taken here.
 
 mod chain;
+mod classify;
+mod envelope;
 mod framing;
 mod server;
 mod targets;
@@ -58,6 +60,20 @@ fn main() {
         "writing" => cmd_writing(&args, seed, n, &out, &summary),
         "chain" => cmd_chain(&args, seed, n, &out, &summary),
         "server" => cmd_server(&args, seed, n, &out, &summary),
+        "classify" => cmd_classify(&args, seed, n, &out, &summary),
+        "envelope" => {
+            let mut r = Rng::new(seed ^ 0xe17e);
+            if let Some(p) = arg_val(&args, "--dump-scenarios") {
+                std::fs::write(p, "{\"family\":\"envelope\"}\n").unwrap();
+            }
+            util::log_open(&out);
+            let mut stats = envelope::Stats { cases: 0 };
+            for _ in 0..n.max(1) {
+                envelope::run_all(&mut r, &mut stats);
+            }
+            let lines = util::log_close();
+            util::write_json(&summary, &json!({"cases": stats.cases, "events": lines}));
+        }
         other => {
             eprintln!("unknown subcommand {other:?}");
             std::process::exit(2);
@@ -260,4 +276,26 @@ fn cmd_server(args: &[String], seed: u64, n: u64, out: &str, summary: &str) {
         &json!({"scenarios": stats.scenarios, "writes": stats.writes, "exits": stats.exits, "events": lines,
                 "B": buffer_step(), "MAXB": buffer_max()}),
     );
+}
+
+fn cmd_classify(args: &[String], seed: u64, n: u64, out: &str, summary: &str) {
+    let mut r = Rng::new(seed ^ 0xc1a5);
+    let frames: Vec<String> = if let Some(p) = arg_val(args, "--replay") {
+        read_lines(&p).iter().map(|v| v["frame"].as_str().unwrap().to_string()).collect()
+    } else {
+        classify::corpus(&mut r, n as usize)
+    };
+    if let Some(p) = arg_val(args, "--dump-scenarios") {
+        use std::io::Write;
+        let mut w = std::io::BufWriter::new(std::fs::File::create(p).unwrap());
+        for f in &frames {
+            writeln!(w, "{}", json!({"family":"classify","frame":f})).unwrap();
+        }
+    }
+    util::log_open(out);
+    let mut stats = classify::Stats { cases: 0, by_outcome: Default::default(), has_error_cases: 0 };
+    classify::run_all(&frames, &mut stats);
+    let lines = util::log_close();
+    util::write_json(summary, &json!({"frames": frames.len(), "cases": stats.cases, "by_outcome": stats.by_outcome,
+        "has_error_cases": stats.has_error_cases, "events": lines}));
 }
